@@ -43,6 +43,11 @@ def gen_cases(ctx):
         ck = rng.choice([None, None, "real"])
         terms = [rand_string(rng, n, ck) for _ in range(k)]
         mk(rng.choice(["sum_apply", "expect", "expect"]), n, terms, style=rng.choice(["generic", "normalised"]))
+    # long sums: lengths around the block sizes a parallel accumulation would use (63..130 terms, not multiples of 16)
+    for k in ([63, 64, 65, 70, 90, 127] if not ctx.thorough() else [63, 64, 65, 70, 90, 127, 129, 200, 257]):
+        n = rng.randrange(3, 6)
+        mk("sum_apply", n, [rand_string(rng, n, rng.choice([None, "real"])) for _ in range(k)], style="generic")
+        mk("expect", n, [rand_string(rng, n, "real") for _ in range(k)], style="normalised")
     # arithmetic operators
     for mode in ALG:
         for _ in range(10 if not ctx.thorough() else 40):
